@@ -45,6 +45,35 @@ def verif_hash():
     return hash_tree(VERIF, ["coq", "ocaml", "harness", "bin", "corpus", "known_findings.json"],
                      exts={".v", ".ml", ".go", ".py", ".hist", ".json", ""})
 
+def prune_build():
+    """disk space is limited: keep the three newest run directories of each kind and the forty newest cache entries; the
+    Go build cache (one copy of the dependency tree per variant of /repo that was ever built) is emptied above 15 GB"""
+    runs = os.path.join(BUILD, "runs")
+    if os.path.isdir(runs):
+        kinds = {}
+        for d in os.listdir(runs):
+            k = "det" if d.startswith("det-") else "c15" if d.startswith("c15-") else "run"
+            kinds.setdefault(k, []).append(os.path.join(runs, d))
+        for k, ds in kinds.items():
+            ds.sort(key=os.path.getmtime, reverse=True)
+            for d in ds[3:]:
+                shutil.rmtree(d, ignore_errors=True)
+    cache = os.path.join(BUILD, "cache")
+    if os.path.isdir(cache):
+        fs = sorted((os.path.join(cache, f) for f in os.listdir(cache)), key=os.path.getmtime, reverse=True)
+        for f in fs[40:]:
+            try: os.remove(f)
+            except OSError: pass
+    try:
+        rc, out = sh("go env GOCACHE", env=GOENV)
+        gc = out.strip()
+        if gc and os.path.isdir(gc):
+            rc, out = sh("du -sm %s" % gc)
+            if int(out.split()[0]) > 15000:
+                sh("go clean -cache", env=GOENV)
+    except Exception:
+        pass
+
 def log(msg):
     print("[check] " + msg, file=sys.stderr, flush=True)
 
